@@ -277,27 +277,31 @@ def run_shard(shard, tier, acc):
                 orb[k] = i
         for i in range(shard["lo"], shard["hi"]):
             for j in range(len(st)):
-                same = orb[st[i].key()] == orb[st[j].key()]
-                case = {"n": 2, "s1": st[i].strings(), "s2": st[j].strings()}
-                acc.evaluations += 1
-                acc.transitions += 1
-                try:
-                    with core.time_limit(HORIZON):
-                        ans, gates = lc_check(gq.group_to_stabilizer_tableau(st[i]), gq.group_to_stabilizer_tableau(st[j]))
-                except Warning as e:
-                    acc.violation("gates", "lc_check:stabilizer", "own-validation-fails", case, "gates", repr(e)[:200])
-                    continue
-                except Exception as e:
-                    acc.violation("gates", "lc_check:stabilizer", "raises-" + type(e).__name__, case, same, repr(e)[:200])
-                    continue
-                if bool(ans) != same:
-                    acc.violation("decide", "lc_check:stabilizer", "false-yes" if ans else "false-no", case, same, bool(ans))
-                elif ans:
-                    img = apply_gate_list(st[i], gates)
-                    if not img.same_state(st[j]):
-                        acc.violation("gates", "lc_check:stabilizer", "gates-do-not-map-s1-to-s2-exactly", case, st[j].strings(), img.strings())
-                acc.validated += 1
+                stab_pair(acc, st[i], st[j], orb[st[i].key()] == orb[st[j].key()])
                 acc.nontriv(("stab", i, j))
+
+
+def stab_pair(acc, a, b, same):
+    from graphiq.backends.stabilizer.functions.local_cliff_equi_check import lc_check
+    case = {"n": a.n, "s1": a.strings(), "s2": b.strings()}
+    acc.evaluations += 1
+    acc.transitions += 1
+    try:
+        with core.time_limit(HORIZON):
+            ans, gates = lc_check(gq.group_to_stabilizer_tableau(a), gq.group_to_stabilizer_tableau(b))
+    except Warning as e:
+        acc.violation("gates", "lc_check:stabilizer", "own-validation-fails", case, "gates", repr(e)[:200])
+        return
+    except Exception as e:
+        acc.violation("gates", "lc_check:stabilizer", "raises-" + type(e).__name__, case, same, repr(e)[:200])
+        return
+    if bool(ans) != same:
+        acc.violation("decide", "lc_check:stabilizer", "false-yes" if ans else "false-no", case, same, bool(ans))
+    elif ans:
+        img = apply_gate_list(a, gates)
+        if not img.same_state(b):
+            acc.violation("gates", "lc_check:stabilizer", "gates-do-not-map-s1-to-s2-exactly", case, b.strings(), img.strings())
+    acc.validated += 1
 
 
 def replay_case(case, acc):
@@ -313,7 +317,18 @@ def replay_case(case, acc):
         mask = sum(1 << pairs.index(tuple(e)) for e in case["edges"])
         run_shard({"kind": "lc", "n": n, "lo": mask, "hi": mask + 1}, "quick", acc)
     else:
-        raise core.HarnessError("replay stab cases via ./check C09 quick")
+        a, b = P.StabGroup.from_strings(case["s1"]), P.StabGroup.from_strings(case["s2"])
+        # same local-Clifford orbit <=> b is reached from a by single-qubit H / P words (closure by search)
+        seen, fr = {a.key()}, [a]
+        while fr:
+            nx_ = []
+            for t in fr:
+                for g, q in itertools.product(("H", "P"), range(a.n)):
+                    u = t.copy().apply(g, q)
+                    if u.key() not in seen:
+                        seen.add(u.key()); nx_.append(u)
+            fr = nx_
+        stab_pair(acc, a, b, b.key() in seen)
 
 
 def _either_disconnected(case):
